@@ -12,6 +12,9 @@ views valid across calls.
 namespace PsVerif.Proofs.WF
 open PsVerif.Model
 
+set_option linter.unusedSimpArgs false
+set_option linter.unusedVariables false
+
 /-! ### shapes and heap extension -/
 
 inductive Shape where
@@ -564,5 +567,956 @@ theorem bFindresource_post (v : VM) (h : WF v) : Post v (bFindresource v) := by
           · wf_leaf h
     · wf_leaf h
   · wf_leaf h
+
+
+theorem bIndex_post (v : VM) (h : WF v) : Post v (bIndex v) := by
+  obtain ⟨st, ds, dg, hp, cm, c1, c2, c3, roots⟩ := v
+  unfold bIndex
+  dsimp only
+  split
+  · split
+    · split
+      · wf_leaf h
+      · next hnot =>
+        split
+        · next o ho =>
+          have hm := List.mem_of_getElem? ho
+          refine Post.same h rfl rfl rfl rfl rfl ?_ noPanic_ok
+          intro x hx
+          have hs := h.stack
+          rcases List.mem_cons.mp hx with rfl | hx
+          · exact hs _ (List.mem_cons_of_mem _ hm)
+          · exact hs _ (List.mem_cons_of_mem _ hx)
+        · next hnone =>
+          exfalso
+          rw [List.getElem?_eq_none_iff] at hnone
+          simp only [List.length_cons] at hnot hnone
+          omega
+    · wf_leaf h
+  · wf_leaf h
+
+theorem bRoll_post (v : VM) (h : WF v) : Post v (bRoll v) := by
+  obtain ⟨st, ds, dg, hp, cm, c1, c2, c3, roots⟩ := v
+  unfold bRoll
+  dsimp only
+  split
+  · next jo no rest =>
+    split
+    · split
+      · wf_leaf h
+      · split
+        · split
+          · wf_leaf h
+          · refine Post.same h rfl rfl rfl rfl rfl ?_ noPanic_ok
+            intro x hx
+            have hs := h.stack
+            apply hs; apply List.mem_cons_of_mem; apply List.mem_cons_of_mem
+            simp only [List.mem_append] at hx
+            rcases hx with (hx | hx) | hx
+            · exact List.mem_of_mem_take (List.mem_of_mem_drop hx)
+            · exact List.mem_of_mem_take (List.mem_of_mem_take hx)
+            · exact List.mem_of_mem_drop hx
+        · wf_leaf h
+    · wf_leaf h
+  · wf_leaf h
+
+theorem bGetinterval_post (v : VM) (h : WF v) : Post v (bGetinterval v) := by
+  obtain ⟨st, ds, dg, hp, cm, c1, c2, c3, roots⟩ := v
+  unfold bGetinterval
+  (repeat' (first | dsimp only [psErr, okRes] | split)) <;>
+    first
+    | (refine Post.same h rfl rfl rfl rfl rfl ?_ noPanic_ok
+       have hs := h.stack
+       simp only [List.forall_mem_cons, objOK] at hs ⊢
+       obtain ⟨-, -, ⟨n, hn, hle⟩, hrest⟩ := hs
+       exact ⟨⟨n, hn, by omega⟩, hrest⟩)
+    | wf_leaf h
+
+theorem bBegin_post (v : VM) (h : WF v) : Post v (bBegin v) := by
+  obtain ⟨st, ds, dg, hp, cm, c1, c2, c3, roots⟩ := v
+  unfold bBegin
+  dsimp only
+  split
+  · wf_leaf h
+  · next top rest =>
+    split
+    · wf_leaf h
+    · have hs := h.stack
+      simp only [List.forall_mem_cons] at hs
+      split
+      · next r =>
+        refine ⟨?_, Ext.refl _, rfl, noPanic_ok⟩
+        refine h.update' rfl (Ext.refl _) h.heap rfl ?_ ?_ ?_ h.cmap hs.2
+        · have := h.dsLen; simp only [okRes, List.length_cons] at this ⊢; omega
+        · intro x hx
+          rcases List.mem_cons.mp hx with rfl | hx
+          · exact hs.1
+          · exact h.ds x hx
+        · intro x hx
+          exact h.ghost x (List.mem_of_mem_tail hx)
+      · wf_leaf h
+
+theorem bEnd_post (v : VM) (h : WF v) : Post v (bEnd v) := by
+  obtain ⟨st, ds, dg, hp, cm, c1, c2, c3, roots⟩ := v
+  rcases ds with _ | ⟨d, ds'⟩
+  · have := h.dsLen; simp at this
+  unfold bEnd
+  dsimp only
+  split
+  · wf_leaf h
+  · next hlen =>
+    refine ⟨?_, Ext.refl _, rfl, noPanic_ok⟩
+    have hds := h.ds
+    dsimp only at hds
+    refine h.update' rfl (Ext.refl _) h.heap rfl ?_ ?_ ?_ h.cmap h.stack
+    · simp only [okRes, List.length_cons, List.tail_cons] at hlen ⊢; omega
+    · intro x hx
+      exact hds x (List.mem_cons_of_mem _ hx)
+    · intro x hx
+      rcases List.mem_cons.mp hx with rfl | hx
+      · exact hds _ (List.mem_cons_self)
+      · exact h.ghost x hx
+
+
+/-! ### allocating operators -/
+
+theorem shapeAt_push_self (h : Array Cell) (c : Cell) : shapeAt (h.push c) h.size = some (shape c) := by
+  rw [shapeAt_push, if_pos rfl]
+
+theorem objOK_push {h : Array Cell} {res : Nat} (c : Cell) {o : Obj} (ok : objOK h res o) :
+    objOK (h.push c) res o := objOK_mono (ext_push h c) ok
+
+/-- one cell was appended -/
+theorem Post.alloc {v v' : VM} {c : Cell} (h : WF v) (okc : cellOK v.heap v.roots.resources c)
+    (hh : v'.heap = v.heap.push c) (hr : v'.roots = v.roots)
+    (hd : v'.dictStack = v.dictStack) (hg : v'.dictGhost = v.dictGhost)
+    (hc : v'.cmapMappings = v.cmapMappings)
+    (hst : ∀ o ∈ v'.stack, objOK (v.heap.push c) v.roots.resources o) : Post v (v', .ok) where
+  wf := h.update hr (by rw [hh]; exact ext_push _ _) (by rw [hh]; exact heapOK_push h.heap okc)
+    (by rw [hh]; exact dictAt_push _ (shapeAt_lt h.rRes)) hd hg hc (by rw [hh]; exact hst)
+  ext := by show Ext v.heap v'.heap; rw [hh]; exact ext_push _ _
+  roots := hr
+  nopanic := noPanic_ok
+
+theorem mem_of_mem_extract {α : Type} {a : Array α} {s e : Nat} {x : α} (h : x ∈ a.extract s e) : x ∈ a := by
+  obtain ⟨i, hi, rfl⟩ := Array.mem_iff_getElem.mp h
+  rw [Array.getElem_extract]
+  exact Array.getElem_mem _
+
+theorem dictInsert_mem {d : List (Name × Obj)} {k : Name} {x : Obj} {p : Name × Obj}
+    (hp : p ∈ dictInsert d k x) : p ∈ d ∨ p = (k, x) := by
+  unfold dictInsert at hp
+  split at hp
+  · obtain ⟨q, hq, rfl⟩ := List.mem_map.mp hp
+    split
+    · exact Or.inr rfl
+    · exact Or.inl hq
+  · rcases List.mem_append.mp hp with h | h
+    · exact Or.inl h
+    · exact Or.inr (by simpa using h)
+
+theorem dictInsert_ok {P : Obj → Prop} {d : List (Name × Obj)} {k : Name} {x : Obj}
+    (hd : ∀ p ∈ d, P p.2) (hx : P x) : ∀ p ∈ dictInsert d k x, P p.2 := by
+  intro p hp
+  rcases dictInsert_mem hp with h | rfl
+  · exact hd p h
+  · exact hx
+
+theorem fillDict_ok {P : Obj → Prop} : ∀ (n : Nat) (l : List Obj) (d d' : List (Name × Obj)), l.length ≤ n →
+    fillDict l d = some d' → (∀ o ∈ l, P o) → (∀ p ∈ d, P p.2) → ∀ p ∈ d', P p.2 := by
+  intro n
+  induction n with
+  | zero =>
+    intro l d d' hl e _ hd
+    match l, hl, e with
+    | [], _, e => simp only [fillDict, Option.some.injEq] at e; subst e; exact hd
+  | succ n ih =>
+    intro l d d' hl e hl' hd
+    unfold fillDict at e
+    split at e
+    · simp only [Option.some.injEq] at e; subst e; exact hd
+    · next k x rest =>
+      simp only [List.forall_mem_cons] at hl'
+      simp only [List.length_cons] at hl
+      exact ih rest _ d' (by omega) e hl'.2.2 (dictInsert_ok hd hl'.2.1)
+    · simp at e
+
+theorem bListEnd_post (v : VM) (h : WF v) : Post v (bListEnd v) := by
+  obtain ⟨st, ds, dg, hp, cm, c1, c2, c3, roots⟩ := v
+  unfold bListEnd
+  dsimp only
+  split
+  · wf_leaf h
+  · next a b e =>
+    obtain ⟨ha, hb⟩ := toMark_mem e
+    have hs := h.stack
+    refine Post.alloc (c := .objs a.reverse.toArray) h ?_ rfl rfl rfl rfl rfl ?_
+    · simp only [cellOK, List.mem_toArray, List.mem_reverse]
+      exact fun o ho => hs o (ha o ho)
+    · simp only [VM.alloc, okRes, List.forall_mem_cons]
+      refine ⟨?_, fun o ho => objOK_push _ (hs o (hb o ho))⟩
+      simp only [objOK]
+      exact ⟨_, shapeAt_push_self _ _, by simp [shape]⟩
+
+theorem bDictEnd_post (v : VM) (h : WF v) : Post v (bDictEnd v) := by
+  obtain ⟨st, ds, dg, hp, cm, c1, c2, c3, roots⟩ := v
+  unfold bDictEnd
+  dsimp only
+  split
+  · wf_leaf h
+  · next a b e =>
+    obtain ⟨ha, hb⟩ := toMark_mem e
+    have hs := h.stack
+    split
+    · wf_leaf h
+    · split
+      · wf_leaf h
+      · next d hd =>
+        refine Post.alloc (c := .dict d) h ?_ rfl rfl rfl rfl rfl ?_
+        · simp only [cellOK]
+          refine fillDict_ok _ _ _ _ (Nat.le_refl _) hd ?_ (by simp)
+          intro o ho
+          exact hs o (ha o (List.mem_reverse.mp ho))
+        · simp only [VM.alloc, okRes, List.forall_mem_cons]
+          refine ⟨?_, fun o ho => objOK_push _ (hs o (hb o ho))⟩
+          simp only [objOK]
+          exact ⟨shapeAt_push_self _ _, Nat.ne_of_gt (shapeAt_lt h.rRes)⟩
+
+theorem bArray_post (v : VM) (h : WF v) : Post v (bArray v) := by
+  obtain ⟨st, ds, dg, hp, cm, c1, c2, c3, roots⟩ := v
+  unfold bArray
+  dsimp only
+  split
+  · wf_leaf h
+  · next n rest =>
+    have hs := h.stack
+    simp only [List.forall_mem_cons] at hs
+    split
+    · wf_leaf h
+    · split
+      · wf_leaf h
+      · refine Post.alloc (c := .objs (Array.replicate n.toNat .file)) h ?_ rfl rfl rfl rfl rfl ?_
+        · simp only [cellOK, Array.mem_replicate]
+          rintro o ⟨-, rfl⟩
+          simp [objOK]
+        · simp only [VM.alloc, okRes, VM.push, List.forall_mem_cons]
+          refine ⟨?_, fun o ho => objOK_push _ (hs.2 o ho)⟩
+          simp only [objOK]
+          exact ⟨_, shapeAt_push_self _ _, by simp [shape]⟩
+  · wf_leaf h
+
+theorem bString_post (v : VM) (h : WF v) : Post v (bString v) := by
+  obtain ⟨st, ds, dg, hp, cm, c1, c2, c3, roots⟩ := v
+  unfold bString
+  dsimp only
+  split
+  · wf_leaf h
+  · next n rest =>
+    have hs := h.stack
+    simp only [List.forall_mem_cons] at hs
+    split
+    · wf_leaf h
+    · split
+      · wf_leaf h
+      · refine Post.alloc (c := .bytes (Array.replicate n.toNat 0)) h ?_ rfl rfl rfl rfl rfl ?_
+        · simp only [cellOK]
+        · simp only [VM.alloc, okRes, VM.push, List.forall_mem_cons]
+          refine ⟨?_, fun o ho => objOK_push _ (hs.2 o ho)⟩
+          simp only [objOK]
+          exact ⟨_, shapeAt_push_self _ _, by simp [shape]⟩
+  · wf_leaf h
+
+theorem bDict_post (v : VM) (h : WF v) : Post v (bDict v) := by
+  obtain ⟨st, ds, dg, hp, cm, c1, c2, c3, roots⟩ := v
+  unfold bDict
+  dsimp only
+  split
+  · wf_leaf h
+  · next n rest =>
+    have hs := h.stack
+    simp only [List.forall_mem_cons] at hs
+    split
+    · wf_leaf h
+    · split
+      · wf_leaf h
+      · refine Post.alloc (c := .dict []) h ?_ rfl rfl rfl rfl rfl ?_
+        · simp [cellOK]
+        · simp only [VM.alloc, okRes, VM.push, List.forall_mem_cons]
+          refine ⟨?_, fun o ho => objOK_push _ (hs.2 o ho)⟩
+          simp only [objOK]
+          exact ⟨shapeAt_push_self _ _, Nat.ne_of_gt (shapeAt_lt h.rRes)⟩
+  · wf_leaf h
+
+theorem bMatrix_post (v : VM) (h : WF v) : Post v (bMatrix v) := by
+  obtain ⟨st, ds, dg, hp, cm, c1, c2, c3, roots⟩ := v
+  unfold bMatrix
+  dsimp only
+  have hs := h.stack
+  refine Post.alloc (c := .objs #[.int 1, .int 0, .int 0, .int 1, .int 0, .int 0]) h ?_ rfl rfl rfl rfl rfl ?_
+  · simp [cellOK, objOK]
+  · simp only [VM.alloc, okRes, VM.push, List.forall_mem_cons]
+    refine ⟨?_, fun o ho => objOK_push _ (hs o ho)⟩
+    simp only [objOK]
+    exact ⟨_, shapeAt_push_self _ _, by simp [shape]⟩
+
+theorem bCvx_post (v : VM) (h : WF v) : Post v (bCvx v) := by
+  obtain ⟨st, ds, dg, hp, cm, c1, c2, c3, roots⟩ := v
+  unfold bCvx
+  dsimp only
+  split
+  · wf_leaf h
+  · next r o l rest =>
+    have hs := h.stack
+    simp only [List.forall_mem_cons, objOK] at hs
+    obtain ⟨⟨n, hn, hle⟩, hrest⟩ := hs
+    obtain ⟨hsz, hok⟩ := objsAt_ok h.heap hn
+    refine Post.alloc (c := .objs (VM.viewObjs _ r o l).toArray) h ?_ rfl rfl rfl rfl rfl ?_
+    · simp only [cellOK, List.mem_toArray, VM.viewObjs, Array.mem_toList_iff]
+      exact fun x hx => hok x (mem_of_mem_extract hx)
+    · simp only [VM.alloc, okRes, List.forall_mem_cons]
+      refine ⟨?_, fun o ho => objOK_push _ (hrest o ho)⟩
+      simp only [objOK]
+      refine ⟨_, shapeAt_push_self _ _, ?_⟩
+      simp only [shape, VM.viewObjs, List.size_toArray, Array.length_toList, Array.size_extract, getObjs_eq]
+      dsimp only at hsz ⊢
+      omega
+  · wf_leaf h
+
+
+/-! ### writing operators -/
+
+theorem ne_res_of_shape {v : VM} (h : WF v) {r : Nat} {s : Shape} (hs : shapeAt v.heap r = some s)
+    (hd : s ≠ .dict) : r ≠ v.roots.resources := by
+  rintro rfl
+  rw [h.rRes] at hs
+  exact hd (Option.some.inj hs).symm
+
+/-- one cell was overwritten by a cell of the same shape -/
+theorem Post.set {v v' : VM} {r : Nat} {c : Cell} {res : Res} (h : WF v)
+    (hs : shapeAt v.heap r = some (shape c)) (okc : cellOK v.heap v.roots.resources c)
+    (hne : r ≠ v.roots.resources)
+    (hh : v'.heap = v.heap.setIfInBounds r c) (hr : v'.roots = v.roots)
+    (hd : v'.dictStack = v.dictStack) (hg : v'.dictGhost = v.dictGhost)
+    (hc : v'.cmapMappings = v.cmapMappings)
+    (hst : ∀ o ∈ v'.stack, objOK v.heap v.roots.resources o) (hn : NoPanic res) : Post v (v', res) where
+  wf := h.update hr (by rw [hh]; exact ext_set hs) (by rw [hh]; exact heapOK_set h.heap hs okc)
+    (by rw [hh]; exact dictAt_set_ne _ hne) hd hg hc
+    (by rw [hh]; exact fun o ho => objOK_mono (ext_set hs) (hst o ho))
+  ext := by show Ext v.heap v'.heap; rw [hh]; exact ext_set hs
+  roots := hr
+  nopanic := hn
+
+theorem Post.dictPut {v v' : VM} {r : Nat} {k : Name} {x : Obj} (h : WF v)
+    (hr : isDictRef v.heap v.roots.resources r) (hx : objOK v.heap v.roots.resources x)
+    (hh : v'.heap = (v.dictPut r k x).heap) (hro : v'.roots = v.roots)
+    (hd : v'.dictStack = v.dictStack) (hg : v'.dictGhost = v.dictGhost)
+    (hc : v'.cmapMappings = v.cmapMappings)
+    (hst : ∀ o ∈ v'.stack, objOK v.heap v.roots.resources o) : Post v (v', .ok) :=
+  Post.set (c := .dict (dictInsert (v.getDict r) k x)) h hr.1
+    (dictInsert_ok (dictAt_ok h.heap hr.1) hx) hr.2 hh hro hd hg hc hst noPanic_ok
+
+theorem writeAt_cons {α : Type} (a : Array α) (off : Nat) (x : α) (xs : List α) :
+    writeAt a off (x :: xs) = writeAt (a.setIfInBounds off x) (off + 1) xs := rfl
+
+theorem writeAt_size {α : Type} : ∀ (vals : List α) (a : Array α) (off : Nat), (writeAt a off vals).size = a.size := by
+  intro vals
+  induction vals with
+  | nil => intro a off; rfl
+  | cons x xs ih => intro a off; rw [writeAt_cons, ih, Array.size_setIfInBounds]
+
+theorem writeAt_mem {α : Type} : ∀ (vals : List α) (a : Array α) (off : Nat) (x : α),
+    x ∈ writeAt a off vals → x ∈ a ∨ x ∈ vals := by
+  intro vals
+  induction vals with
+  | nil => intro a off x hx; exact Or.inl hx
+  | cons y ys ih =>
+    intro a off x hx
+    rw [writeAt_cons] at hx
+    rcases ih _ _ _ hx with h | h
+    · rcases Array.mem_or_eq_of_mem_setIfInBounds h with h | rfl
+      · exact Or.inl h
+      · exact Or.inr (List.mem_cons_self)
+    · exact Or.inr (List.mem_cons_of_mem _ h)
+
+theorem viewObjs_ok {v : VM} (h : WF v) {r o l n : Nat} (hs : shapeAt v.heap r = some (.objs n)) :
+    ∀ x ∈ v.viewObjs r o l, objOK v.heap v.roots.resources x := by
+  intro x hx
+  simp only [VM.viewObjs, Array.mem_toList_iff] at hx
+  exact (objsAt_ok h.heap hs).2 x (mem_of_mem_extract hx)
+
+theorem foldl_dictInsert_ok {P : Obj → Prop} : ∀ (src d : List (Name × Obj)),
+    (∀ p ∈ src, P p.2) → (∀ p ∈ d, P p.2) →
+    ∀ p ∈ src.foldl (fun acc kv => dictInsert acc kv.1 kv.2) d, P p.2 := by
+  intro src
+  induction src with
+  | nil => intro d _ hd; exact hd
+  | cons q qs ih =>
+    intro d hs hd
+    simp only [List.forall_mem_cons] at hs
+    exact ih _ hs.2 (dictInsert_ok hd hs.1)
+
+theorem Post.ite {v : VM} {c : Prop} [Decidable c] {a b : VM × Res} (ha : Post v a) (hb : Post v b) :
+    Post v (if c then a else b) := by
+  split <;> assumption
+
+theorem bDef_post (v : VM) (h : WF v) : Post v (bDef v) := by
+  obtain ⟨st, ds, dg, hp, cm, c1, c2, c3, roots⟩ := v
+  unfold bDef
+  dsimp only
+  split
+  · next x k rest =>
+    have hs := h.stack
+    simp only [List.forall_mem_cons] at hs
+    split
+    · split
+      · have := h.dsLen; simp at this
+      · next d _ =>
+        exact Post.dictPut h (h.ds d List.mem_cons_self) hs.1 rfl rfl rfl rfl rfl hs.2.2
+    · wf_leaf h
+  · wf_leaf h
+
+theorem bDefinefont_post (v : VM) (h : WF v) : Post v (bDefinefont v) := by
+  obtain ⟨st, ds, dg, hp, cm, c1, c2, c3, roots⟩ := v
+  unfold bDefinefont
+  dsimp only
+  split
+  · next font k rest =>
+    have hs := h.stack
+    simp only [List.forall_mem_cons] at hs
+    split
+    · split
+      · refine Post.dictPut h h.rFont hs.1 rfl rfl rfl rfl rfl ?_
+        simp only [List.forall_mem_cons]
+        exact ⟨hs.1, hs.2.2⟩
+      · wf_leaf h
+    · wf_leaf h
+  · wf_leaf h
+
+theorem bDefineresource_post (v : VM) (h : WF v) : Post v (bDefineresource v) := by
+  obtain ⟨st, ds, dg, hp, cm, c1, c2, c3, roots⟩ := v
+  unfold bDefineresource
+  dsimp only
+  split
+  · next cls inst key rest =>
+    have hs := h.stack
+    simp only [List.forall_mem_cons] at hs
+    split
+    · split
+      · split
+        · next cd hcd =>
+          obtain ⟨r, hr, hdr⟩ := resGet_dict h hcd
+          cases hr
+          refine Post.ite ?_ ?_
+          · wf_leaf h
+          · refine Post.dictPut h hdr hs.2.1 rfl rfl rfl rfl rfl ?_
+            simp only [List.forall_mem_cons]
+            exact ⟨hs.2.1, hs.2.2.2⟩
+        · wf_leaf h
+      · wf_leaf h
+    · wf_leaf h
+  · wf_leaf h
+
+
+theorem put_objs {v v' : VM} {r o l : Nat} {i : Int} {x : Obj} (h : WF v)
+    (hv : ∃ n, shapeAt v.heap r = some (.objs n) ∧ o + l ≤ n) (hx : objOK v.heap v.roots.resources x)
+    (hh : v'.heap = v.heap.setIfInBounds r (.objs ((v.getObjs r).setIfInBounds (o + i.toNat) x)))
+    (hr : v'.roots = v.roots) (hd : v'.dictStack = v.dictStack) (hg : v'.dictGhost = v.dictGhost)
+    (hc : v'.cmapMappings = v.cmapMappings)
+    (hst : ∀ o ∈ v'.stack, objOK v.heap v.roots.resources o) : Post v (v', .ok) := by
+  obtain ⟨n, hn, hle⟩ := hv
+  obtain ⟨hsz, hok⟩ := objsAt_ok h.heap hn
+  refine Post.set h ?_ ?_ (ne_res_of_shape h hn (by simp)) hh hr hd hg hc hst noPanic_ok
+  · simp only [shape, Array.size_setIfInBounds, getObjs_eq, hsz]; exact hn
+  · intro y hy
+    rcases Array.mem_or_eq_of_mem_setIfInBounds hy with hy | rfl
+    · exact hok y hy
+    · exact hx
+
+theorem put_bytes {v v' : VM} {r n : Nat} {a : Array UInt8} {res : Res} (h : WF v)
+    (hn : shapeAt v.heap r = some (.bytes n)) (ha : a.size = (v.getBytes r).size)
+    (hh : v'.heap = v.heap.setIfInBounds r (.bytes a))
+    (hr : v'.roots = v.roots) (hd : v'.dictStack = v.dictStack) (hg : v'.dictGhost = v.dictGhost)
+    (hc : v'.cmapMappings = v.cmapMappings)
+    (hst : ∀ o ∈ v'.stack, objOK v.heap v.roots.resources o) (hnp : NoPanic res) : Post v (v', res) := by
+  obtain ⟨b, hb, hsz, hq⟩ := cell_of_shape_bytes hn
+  refine Post.set h ?_ ?_ (ne_res_of_shape h hn (by simp)) hh hr hd hg hc hst hnp
+  · rw [getBytes_eq, hq] at ha
+    simp only [shape, ha, hsz]; exact hn
+  · simp only [cellOK]
+
+theorem put_writeAt {v v' : VM} {r n off : Nat} {vals : List Obj} (h : WF v)
+    (hn : shapeAt v.heap r = some (.objs n)) (hvals : ∀ x ∈ vals, objOK v.heap v.roots.resources x)
+    (hh : v'.heap = v.heap.setIfInBounds r (.objs (writeAt (v.getObjs r) off vals)))
+    (hr : v'.roots = v.roots) (hd : v'.dictStack = v.dictStack) (hg : v'.dictGhost = v.dictGhost)
+    (hc : v'.cmapMappings = v.cmapMappings)
+    (hst : ∀ o ∈ v'.stack, objOK v.heap v.roots.resources o) : Post v (v', .ok) := by
+  obtain ⟨hsz, hok⟩ := objsAt_ok h.heap hn
+  refine Post.set h ?_ ?_ (ne_res_of_shape h hn (by simp)) hh hr hd hg hc hst noPanic_ok
+  · simp only [shape, writeAt_size, getObjs_eq, hsz]; exact hn
+  · intro y hy
+    rcases writeAt_mem _ _ _ _ hy with hy | hy
+    · exact hok y hy
+    · exact hvals y hy
+
+theorem bPut_post (v : VM) (h : WF v) : Post v (bPut v) := by
+  obtain ⟨st, ds, dg, hp, cm, c1, c2, c3, roots⟩ := v
+  unfold bPut
+  dsimp only
+  split
+  · next value sel obj rest =>
+    have hs := h.stack
+    simp only [List.forall_mem_cons] at hs
+    obtain ⟨hval, -, hobj, hrest⟩ := hs
+    split
+    · split
+      · split
+        · wf_leaf h
+        · exact put_objs h hobj hval rfl rfl rfl rfl rfl hrest
+      · wf_leaf h
+    · split
+      · split
+        · wf_leaf h
+        · exact put_objs h hobj hval rfl rfl rfl rfl rfl hrest
+      · wf_leaf h
+    · split
+      · exact Post.dictPut h hobj hval rfl rfl rfl rfl rfl hrest
+      · wf_leaf h
+    · split
+      · split
+        · wf_leaf h
+        · split
+          · split
+            · wf_leaf h
+            · obtain ⟨n, hn, -⟩ := hobj
+              exact put_bytes h hn (Array.size_setIfInBounds) rfl rfl rfl rfl rfl hrest noPanic_ok
+          · wf_leaf h
+      · wf_leaf h
+    · wf_leaf h
+  · wf_leaf h
+
+theorem bPutinterval_post (v : VM) (h : WF v) : Post v (bPutinterval v) := by
+  obtain ⟨st, ds, dg, hp, cm, c1, c2, c3, roots⟩ := v
+  unfold bPutinterval
+  dsimp only
+  split
+  · next src idx dst rest =>
+    have hs := h.stack
+    simp only [List.forall_mem_cons] at hs
+    obtain ⟨hsrc, -, hdst, hrest⟩ := hs
+    split
+    · split
+      · wf_leaf h
+      · split
+        · split
+          · split
+            · wf_leaf h
+            · obtain ⟨n, hn, -⟩ := hdst
+              obtain ⟨n2, hn2, -⟩ := hsrc
+              exact put_writeAt h hn (viewObjs_ok h hn2) rfl rfl rfl rfl rfl hrest
+          · wf_leaf h
+        · split
+          · split
+            · wf_leaf h
+            · obtain ⟨n, hn, -⟩ := hdst
+              exact put_bytes h hn (writeAt_size _ _ _) rfl rfl rfl rfl rfl hrest noPanic_ok
+          · wf_leaf h
+        · wf_leaf h
+    · wf_leaf h
+  · wf_leaf h
+
+theorem bCopy_post (v : VM) (h : WF v) : Post v (bCopy v) := by
+  obtain ⟨st, ds, dg, hp, cm, c1, c2, c3, roots⟩ := v
+  unfold bCopy
+  dsimp only
+  split
+  · wf_leaf h
+  · next n rest =>
+    split
+    · wf_leaf h
+    · split
+      · wf_leaf h
+      · refine Post.same h rfl rfl rfl rfl rfl ?_ noPanic_ok
+        have hs := h.stack
+        simp only [List.forall_mem_cons] at hs
+        intro x hx
+        rcases List.mem_append.mp hx with hx | hx
+        · exact hs.2 x (List.mem_of_mem_take hx)
+        · exact hs.2 x hx
+  · next b a rest _ =>
+    have hs := h.stack
+    simp only [List.forall_mem_cons] at hs
+    obtain ⟨hb, ha, hrest⟩ := hs
+    split
+    · split
+      · split
+        · wf_leaf h
+        · next hl =>
+          obtain ⟨n, hn, hle⟩ := hb
+          obtain ⟨n2, hn2, -⟩ := ha
+          refine put_writeAt h hn (viewObjs_ok h hn2) rfl rfl rfl rfl rfl ?_
+          simp only [VM.push, List.forall_mem_cons, objOK]
+          exact ⟨⟨n, hn, by omega⟩, hrest⟩
+      · wf_leaf h
+    · split
+      · refine Post.set (c := .dict _) h hb.1 ?_ hb.2 rfl rfl rfl rfl rfl ?_ noPanic_ok
+        · exact foldl_dictInsert_ok _ _ (dictAt_ok h.heap ha.1) (dictAt_ok h.heap hb.1)
+        · simp only [VM.push, List.forall_mem_cons]
+          exact ⟨hb, hrest⟩
+      · wf_leaf h
+    · split
+      · split
+        · wf_leaf h
+        · next hl =>
+          obtain ⟨n, hn, hle⟩ := hb
+          refine put_bytes h hn (writeAt_size _ _ _) rfl rfl rfl rfl rfl ?_ noPanic_ok
+          simp only [VM.push, List.forall_mem_cons, objOK]
+          exact ⟨⟨n, hn, by omega⟩, hrest⟩
+      · wf_leaf h
+    · wf_leaf h
+  · wf_leaf h
+
+
+/-! ### `bind` -/
+
+theorem Post.refl {v : VM} (h : WF v) {r : Res} (hn : NoPanic r) : Post v (v, r) :=
+  ⟨h, Ext.refl _, rfl, hn⟩
+
+theorem Post.seq {v v1 : VM} {r1 : Res} {p : VM × Res} (h1 : Post v (v1, r1)) (h2 : Post v1 p) : Post v p :=
+  ⟨h2.wf, Ext.trans h1.ext h2.ext, h2.roots.trans h1.roots, h2.nopanic⟩
+
+theorem Post.withRes {v v1 : VM} {r1 : Res} (h1 : Post v (v1, r1)) {r : Res} (hn : NoPanic r) : Post v (v1, r) :=
+  ⟨h1.wf, h1.ext, h1.roots, hn⟩
+
+theorem noPanic_fuel : NoPanic .fuel := by intro s; simp
+
+/-- overwrite one element of an `.objs` cell -/
+theorem set_elem {v : VM} {ref n k : Nat} {x : Obj} {res : Res} (h : WF v)
+    (hn : shapeAt v.heap ref = some (.objs n)) (hx : objOK v.heap v.roots.resources x) (hnp : NoPanic res) :
+    Post v (v.setCell ref (.objs ((v.getObjs ref).setIfInBounds k x)), res) := by
+  obtain ⟨hsz, hok⟩ := objsAt_ok h.heap hn
+  refine Post.set h ?_ ?_ (ne_res_of_shape h hn (by simp)) rfl rfl rfl rfl rfl h.stack hnp
+  · simp only [shape, Array.size_setIfInBounds, getObjs_eq, hsz]; exact hn
+  · intro y hy
+    rcases Array.mem_or_eq_of_mem_setIfInBounds hy with hy | rfl
+    · exact hok y hy
+    · exact hx
+
+def BindProcOK (fuel : Nat) : Prop :=
+  ∀ (v : VM) (ref off len depth : Nat), WF v →
+    (∃ n, shapeAt v.heap ref = some (.objs n) ∧ off + len ≤ n) → Post v (bindProc fuel v ref off len depth)
+
+def BindLoopOK (fuel : Nat) : Prop :=
+  ∀ (v : VM) (ref off depth i todo : Nat), WF v →
+    (∃ n, shapeAt v.heap ref = some (.objs n) ∧ off + i + todo ≤ n) → Post v (bindLoop fuel v ref off depth i todo)
+
+theorem bindLoop_step {fuel : Nat} (ihP : BindProcOK fuel) (ihL : BindLoopOK fuel) : BindLoopOK (fuel + 1) := by
+  intro v ref off depth i todo h hv
+  obtain ⟨n, hn, hle⟩ := hv
+  cases todo with
+  | zero => simp only [bindLoop]; exact Post.refl h noPanic_ok
+  | succ todo =>
+    simp only [bindLoop]
+    obtain ⟨hsz, hok⟩ := objsAt_ok h.heap hn
+    split
+    · next hnone =>
+      exfalso
+      rw [Array.getElem?_eq_none_iff, getObjs_eq, hsz] at hnone
+      omega
+    · next elem he =>
+      have helem : objOK v.heap v.roots.resources elem := hok elem (Array.mem_of_getElem? he)
+      have hnext : ∃ n, shapeAt v.heap ref = some (.objs n) ∧ off + (i + 1) + todo ≤ n := ⟨n, hn, by omega⟩
+      split
+      · next nm =>
+        split
+        · next b hb =>
+          have hbok := lookupName_ok h hb
+          have p1 : Post v (v.setCell ref (.objs ((v.getObjs ref).setIfInBounds (off + i) (.builtin b))), .ok) :=
+            set_elem h hn hbok noPanic_ok
+          exact p1.seq (ihL _ ref off depth (i + 1) todo p1.wf ⟨n, p1.ext _ _ hn, by omega⟩)
+        · exact ihL v ref off depth (i + 1) todo h hnext
+      · next r o l =>
+        have p1 : Post v (v.setCell ref (.objs ((v.getObjs ref).setIfInBounds (off + i) .file)), .ok) :=
+          set_elem h hn (by simp [objOK]) noPanic_ok
+        obtain ⟨m, hm, hml⟩ := helem
+        have p2 := ihP _ r o l (depth + 1) p1.wf ⟨m, p1.ext _ _ hm, hml⟩
+        generalize bindProc fuel _ r o l (depth + 1) = p at p2 ⊢
+        obtain ⟨s2, res⟩ := p
+        dsimp only
+        have p12 := p1.seq p2
+        have hn2 : shapeAt s2.heap ref = some (.objs n) := p12.ext _ _ hn
+        have hproc : objOK s2.heap s2.roots.resources (.proc r o l) := by
+          rw [p12.roots]; exact ⟨m, p12.ext _ _ hm, hml⟩
+        have p3 : Post s2 (s2.setCell ref (.objs ((s2.getObjs ref).setIfInBounds (off + i) (.proc r o l))), res) :=
+          set_elem p2.wf hn2 hproc p2.nopanic
+        have p123 := p12.seq p3
+        split
+        · exact p123.seq (ihL _ ref off depth (i + 1) todo p3.wf ⟨n, p3.ext _ _ hn2, by omega⟩)
+        · exact p123
+      · exact ihL v ref off depth (i + 1) todo h hnext
+
+theorem bindProc_step {fuel : Nat} (ihL : BindLoopOK fuel) : BindProcOK (fuel + 1) := by
+  intro v ref off len depth h hv
+  simp only [bindProc]
+  split
+  · exact Post.refl h (noPanic_ps _)
+  · obtain ⟨n, hn, hle⟩ := hv
+    exact ihL v ref off depth 0 len h ⟨n, hn, by omega⟩
+
+theorem bind_ok : ∀ fuel, BindProcOK fuel ∧ BindLoopOK fuel := by
+  intro fuel
+  induction fuel with
+  | zero =>
+    refine ⟨?_, ?_⟩
+    · intro v ref off len depth h _; simp only [bindProc]; exact Post.refl h noPanic_fuel
+    · intro v ref off depth i todo h _; simp only [bindLoop]; exact Post.refl h noPanic_fuel
+  | succ n ih => exact ⟨bindProc_step ih.2, bindLoop_step ih.1 ih.2⟩
+
+theorem bBind_post (v : VM) (h : WF v) : Post v (bBind v) := by
+  unfold bBind
+  split
+  · exact Post.refl h (noPanic_ps _)
+  · next r o l rest hst =>
+    have hs := h.stack
+    rw [hst] at hs
+    exact (bind_ok _).1 v r o l 0 h (hs _ List.mem_cons_self)
+  · exact Post.refl h (noPanic_ps _)
+
+
+/-! ### the CIDInit operators -/
+
+theorem bBegincmap_post (v : VM) (h : WF v) : Post v (bBegincmap v) := by
+  obtain ⟨st, ds, dg, hp, cm, c1, c2, c3, roots⟩ := v
+  unfold bBegincmap
+  simp only [VM.alloc, okRes]
+  have hext : Ext hp (hp.push (.cmap {})) := ext_push _ _
+  refine ⟨?_, hext, rfl, noPanic_ok⟩
+  refine h.update' rfl hext (heapOK_push h.heap ?_) (dictAt_push _ (shapeAt_lt h.rRes)) h.dsLen
+    (fun r hr => isDictRef_mono hext (h.ds r hr)) (fun r hr => isDictRef_mono hext (h.ghost r hr)) ?_
+    (fun o ho => objOK_mono hext (h.stack o ho))
+  · simp [cellOK, cmapOK]
+  · intro r hr
+    simp only [Option.some.injEq] at hr
+    subst hr
+    exact shapeAt_push_self _ _
+
+theorem Post.setCMap {v v' : VM} {r : Nat} {c : CMapInfo} {res : Res} (h : WF v)
+    (hs : shapeAt v.heap r = some .cmap) (okc : cmapOK v.heap v.roots.resources c)
+    (hh : v'.heap = v.heap.setIfInBounds r (.cmap c)) (hr : v'.roots = v.roots)
+    (hd : v'.dictStack = v.dictStack) (hg : v'.dictGhost = v.dictGhost)
+    (hc : v'.cmapMappings = v.cmapMappings)
+    (hst : ∀ o ∈ v'.stack, objOK v.heap v.roots.resources o) (hn : NoPanic res) : Post v (v', res) :=
+  Post.set (c := .cmap c) h hs okc (ne_res_of_shape h hs (by simp)) hh hr hd hg hc hst hn
+
+theorem wf_clearCMap {v : VM} (h : WF v) : WF { v with cmapMappings := none } :=
+  h.update' rfl (Ext.refl _) h.heap rfl h.dsLen h.ds h.ghost (by intro r hr; simp at hr) h.stack
+
+theorem bUsecmap_post (v : VM) (h : WF v) : Post v (bUsecmap v) := by
+  obtain ⟨st, ds, dg, hp, cm, c1, c2, c3, roots⟩ := v
+  unfold bUsecmap withCMap
+  dsimp only
+  split
+  · wf_leaf h
+  · next r =>
+    have hcm := h.cmap r rfl
+    have hs := h.stack
+    split
+    · wf_leaf h
+    · next n rest =>
+      simp only [List.forall_mem_cons] at hs
+      exact Post.setCMap (c := { cmapAt hp r with useCMap := n }) h hcm (cmapAt_ok h.heap hcm)
+        rfl rfl rfl rfl rfl hs.2 noPanic_ok
+    · wf_leaf h
+
+theorem bBegincodespacerange_post (v : VM) (h : WF v) : Post v (bBegincodespacerange v) := by
+  obtain ⟨st, ds, dg, hp, cm, c1, c2, c3, roots⟩ := v
+  unfold bBegincodespacerange beginBlock withCMap; wf_triv h
+
+theorem bBeginChars_post (v : VM) (h : WF v) : Post v (bBeginChars v) := by
+  obtain ⟨st, ds, dg, hp, cm, c1, c2, c3, roots⟩ := v
+  unfold bBeginChars beginBlock withCMap; wf_triv h
+
+theorem bBeginRanges_post (v : VM) (h : WF v) : Post v (bBeginRanges v) := by
+  obtain ⟨st, ds, dg, hp, cm, c1, c2, c3, roots⟩ := v
+  unfold bBeginRanges beginBlock withCMap; wf_triv h
+
+theorem collectPairs_ok {P : Obj → Prop} (s : VM) (chk : Bool) : ∀ (n : Nat) (l : List Obj) (es : List CodeSpaceRange),
+    l.length ≤ n → collectPairs s chk l = .ok es → (∀ o ∈ l, P o) → ∀ x ∈ es, P x.low ∧ P x.high := by
+  intro n
+  induction n with
+  | zero =>
+    intro l es hl e _
+    match l, hl, e with
+    | [], _, e => simp only [collectPairs, Except.ok.injEq] at e; subst e; simp
+  | succ n ih =>
+    intro l es hl e hP
+    unfold collectPairs at e
+    split at e
+    · cases e; simp
+    · next lo hi rest =>
+      simp only [List.forall_mem_cons] at hP
+      simp only [List.length_cons] at hl
+      split at e; · exact nomatch e
+      split at e; · exact nomatch e
+      split at e; · exact nomatch e
+      split at e; · exact nomatch e
+      cases hrec : collectPairs s chk rest with
+      | error x => simp [hrec, bind, Except.bind] at e
+      | ok r =>
+        simp only [hrec, bind, Except.bind, pure, Except.pure, Except.ok.injEq] at e
+        subst e
+        simp only [List.forall_mem_cons]
+        exact ⟨⟨hP.1, hP.2.1⟩, ih rest r (by omega) hrec hP.2.2⟩
+    · cases e; simp
+
+theorem collectChars_ok {P : Obj → Prop} (valOk : Obj → Bool) : ∀ (n : Nat) (l : List Obj) (es : List CharMap),
+    l.length ≤ n → collectChars valOk l = .ok es → (∀ o ∈ l, P o) → ∀ x ∈ es, P x.src ∧ P x.dst := by
+  intro n
+  induction n with
+  | zero =>
+    intro l es hl e _
+    match l, hl, e with
+    | [], _, e => simp only [collectChars, Except.ok.injEq] at e; subst e; simp
+  | succ n ih =>
+    intro l es hl e hP
+    unfold collectChars at e
+    split at e
+    · cases e; simp
+    · next code val rest =>
+      simp only [List.forall_mem_cons] at hP
+      simp only [List.length_cons] at hl
+      split at e; · exact nomatch e
+      split at e; · exact nomatch e
+      cases hrec : collectChars valOk rest with
+      | error x => simp [hrec, bind, Except.bind] at e
+      | ok r =>
+        simp only [hrec, bind, Except.bind, pure, Except.pure, Except.ok.injEq] at e
+        subst e
+        simp only [List.forall_mem_cons]
+        exact ⟨⟨hP.1, hP.2.1⟩, ih rest r (by omega) hrec hP.2.2⟩
+    · cases e; simp
+
+theorem collectRanges_ok {P : Obj → Prop} (s : VM) (valOk : Obj → Bool) : ∀ (n : Nat) (l : List Obj) (es : List RangeMap),
+    l.length ≤ n → collectRanges s valOk l = .ok es → (∀ o ∈ l, P o) → ∀ x ∈ es, P x.low ∧ P x.high ∧ P x.dst := by
+  intro n
+  induction n with
+  | zero =>
+    intro l es hl e _
+    match l, hl, e with
+    | [], _, e => simp only [collectRanges, Except.ok.injEq] at e; subst e; simp
+  | succ n ih =>
+    intro l es hl e hP
+    unfold collectRanges at e
+    split at e
+    · cases e; simp
+    · next lo hi val rest =>
+      simp only [List.forall_mem_cons] at hP
+      simp only [List.length_cons] at hl
+      split at e; · exact nomatch e
+      split at e; · exact nomatch e
+      split at e; · exact nomatch e
+      split at e; · exact nomatch e
+      cases hrec : collectRanges s valOk rest with
+      | error x => simp [hrec, bind, Except.bind] at e
+      | ok r =>
+        simp only [hrec, bind, Except.bind, pure, Except.pure, Except.ok.injEq] at e
+        subst e
+        simp only [List.forall_mem_cons]
+        exact ⟨⟨hP.1, hP.2.1, hP.2.2.1⟩, ih rest r (by omega) hrec hP.2.2.2⟩
+    · cases e; simp
+
+theorem stack_take_rev_ok {v : VM} (h : WF v) (n : Nat) :
+    ∀ o ∈ (v.stack.take n).reverse, objOK v.heap v.roots.resources o :=
+  fun o ho => h.stack o (List.mem_of_mem_take (List.mem_reverse.mp ho))
+
+theorem stack_drop_ok {v : VM} (h : WF v) (n : Nat) :
+    ∀ o ∈ v.stack.drop n, objOK v.heap v.roots.resources o :=
+  fun o ho => h.stack o (List.mem_of_mem_drop ho)
+
+theorem bEndcodespacerange_post (v : VM) (h : WF v) : Post v (bEndcodespacerange v) := by
+  unfold bEndcodespacerange withCMap
+  dsimp only
+  split
+  · exact Post.refl h (noPanic_ps _)
+  · next r hr =>
+    have hcm := h.cmap r hr
+    split
+    · exact Post.refl h (noPanic_ps _)
+    · split
+      · exact Post.refl h (noPanic_ps _)
+      · next es hes =>
+        have hok := collectPairs_ok (P := objOK v.heap v.roots.resources) v true _ _ _ (Nat.le_refl _) hes
+          (stack_take_rev_ok h _)
+        obtain ⟨k1, k2, k3, k4, k5, k6, k7⟩ := cmapAt_ok h.heap hcm
+        refine Post.setCMap h hcm ?_ rfl rfl rfl rfl rfl (stack_drop_ok h _) noPanic_ok
+        refine ⟨?_, k2, k3, k4, k5, k6, k7⟩
+        intro x hx
+        rcases List.mem_append.mp hx with hx | hx
+        · exact k1 x hx
+        · exact hok x hx
+
+theorem endChars_post (valOk : Obj → Bool) (add : CMapInfo → List CharMap → CMapInfo)
+    (hadd : ∀ (hp : Array Cell) (res : Nat) (c : CMapInfo) (es : List CharMap), cmapOK hp res c →
+      (∀ x ∈ es, objOK hp res x.src ∧ objOK hp res x.dst) → cmapOK hp res (add c es))
+    (v : VM) (h : WF v) : Post v (endChars valOk add v) := by
+  unfold endChars withCMap
+  dsimp only
+  split
+  · exact Post.refl h (noPanic_ps _)
+  · next r hr =>
+    have hcm := h.cmap r hr
+    split
+    · exact Post.refl h (noPanic_ps _)
+    · split
+      · exact Post.refl h (noPanic_ps _)
+      · next es hes =>
+        have hok := collectChars_ok (P := objOK v.heap v.roots.resources) valOk _ _ _ (Nat.le_refl _) hes
+          (stack_take_rev_ok h _)
+        exact Post.setCMap h hcm (hadd _ _ _ _ (cmapAt_ok h.heap hcm) hok) rfl rfl rfl rfl rfl
+          (stack_drop_ok h _) noPanic_ok
+
+theorem endRanges_post (valOk : Obj → Bool) (add : CMapInfo → List RangeMap → CMapInfo)
+    (hadd : ∀ (hp : Array Cell) (res : Nat) (c : CMapInfo) (es : List RangeMap), cmapOK hp res c →
+      (∀ x ∈ es, objOK hp res x.low ∧ objOK hp res x.high ∧ objOK hp res x.dst) → cmapOK hp res (add c es))
+    (v : VM) (h : WF v) : Post v (endRanges valOk add v) := by
+  unfold endRanges withCMap
+  dsimp only
+  split
+  · exact Post.refl h (noPanic_ps _)
+  · next r hr =>
+    have hcm := h.cmap r hr
+    split
+    · exact Post.refl h (noPanic_ps _)
+    · split
+      · exact Post.refl h (noPanic_ps _)
+      · next es hes =>
+        have hok := collectRanges_ok (P := objOK v.heap v.roots.resources) v valOk _ _ _ (Nat.le_refl _) hes
+          (stack_take_rev_ok h _)
+        exact Post.setCMap h hcm (hadd _ _ _ _ (cmapAt_ok h.heap hcm) hok) rfl rfl rfl rfl rfl
+          (stack_drop_ok h _) noPanic_ok
+
+macro "cmap_add" : tactic =>
+  `(tactic| (intro hp res c es hc hes
+             obtain ⟨k1, k2, k3, k4, k5, k6, k7⟩ := hc
+             refine ⟨?_, ?_, ?_, ?_, ?_, ?_, ?_⟩ <;>
+               first
+               | assumption
+               | (intro x hx
+                  rcases List.mem_append.mp hx with hx | hx
+                  · first | exact k1 x hx | exact k2 x hx | exact k3 x hx | exact k4 x hx | exact k5 x hx
+                          | exact k6 x hx | exact k7 x hx
+                  · exact hes x hx)))
+
+theorem bEndcidchar_post (v : VM) (h : WF v) : Post v (bEndcidchar v) :=
+  endChars_post _ _ (by cmap_add) v h
+theorem bEndbfchar_post (v : VM) (h : WF v) : Post v (bEndbfchar v) :=
+  endChars_post _ _ (by cmap_add) v h
+theorem bEndnotdefchar_post (v : VM) (h : WF v) : Post v (bEndnotdefchar v) :=
+  endChars_post _ _ (by cmap_add) v h
+theorem bEndcidrange_post (v : VM) (h : WF v) : Post v (bEndcidrange v) :=
+  endRanges_post _ _ (by cmap_add) v h
+theorem bEndbfrange_post (v : VM) (h : WF v) : Post v (bEndbfrange v) :=
+  endRanges_post _ _ (by cmap_add) v h
+theorem bEndnotdefrange_post (v : VM) (h : WF v) : Post v (bEndnotdefrange v) :=
+  endRanges_post _ _ (by cmap_add) v h
 
 end PsVerif.Proofs.WF
